@@ -301,6 +301,9 @@ func (g *G) cdxNode(id string, v int, inClass bool) M {
 				ps = append(ps, float64(16))
 			}
 			if g.Chance(0.15) {
+				ps = []any{float64(g.Pick2([]int{16, 14, 5, 1})), float64(g.Pick2([]int{1, 13, 16, 21})), float64(g.Pick2([]int{13, 5, 14}))}[:2+g.Int(2)]
+			}
+			if g.Chance(0.15) {
 				ps = nil
 			}
 		}
@@ -1051,6 +1054,13 @@ func oracleCdx(op M, res any, exec func(M) any) []Finding {
 					}
 					if !Equal(identityAttrs(a)["Hashes"], identityAttrs(b)["Hashes"]) {
 						add("C03", "hashes of node %q change across CycloneDX", id)
+					}
+					// the native component type is that of the first primary purpose, however many follow
+					if nt := nativeType(a); asInt(a["type"]) == 0 && len(asList(attrOf(a, "PrimaryPurpose"))) >= 2 && nt != "" && nt != "file" &&
+						(v >= 5 || (nt != "data" && nt != "device-driver" && nt != "machine-learning-model" && nt != "platform")) && asInt(b["type"]) == 0 {
+						if got := nativeType(b); got != nt {
+							add("C02", "node %q has purposes %s, so its native component type is %q; read back it is %q (purposes %s)", id, js(attrOf(a, "PrimaryPurpose")), nt, got, js(attrOf(b, "PrimaryPurpose")))
+						}
 					}
 					purl := func(n M) string {
 						for _, p := range asList(attrOf(n, "Identifiers")) {
